@@ -4,6 +4,8 @@ import Rooc.BuilderHist
 import Rooc.WireSolve
 import Rooc.Pipes
 import Rooc.Drv.C03
+import Rooc.Drv.C01
+import Rooc.Gen.Consts
 namespace Rooc.Drv.C16
 open Rooc Sexp Builder
 
@@ -91,7 +93,13 @@ def history (α : Type) [Arith α] [Wire α] (ops : List Sexp) (rest : List Sexp
       match (decSol sol : Option (SolverWrap.Solution α)), optAll (hs.map decNat), (optAll (es.map Exp.dec) : Option (List (Exp α))),
           optAll (cs.map fun | .str c => some c | _ => none) with
       | some sol, some hs, some es, some cs =>
-        app "ok" (head ++ [readback { solution := sol, variableNames := s.variableNames } hs es cs])
+        -- `solve_with(solver)` with a solver that returns the given solution: linearize first (its error wins), then wrap
+        match s.solveWith (Wire.ofBits 0x3e112e0be826d695) Gen.boundsMaxSteps (fun _ => .ok sol) with   -- tolerance 1e-9
+        | .ok b => app "ok" (head ++ [readback b hs es cs])
+        | .linearization e => app "ok" (head ++ [app "linearization" [Drv.C01.encErr e]])
+        | .indexPanic => app "ok" (head ++ [app "solve-panic" []])
+        | .solver v => app "ok" (head ++ [app "solver" [.atom v]])
+        | .solverPanic => app "ok" (head ++ [app "solve-panic" []])
       | _, _, _, _ => app "err" [.atom "decode-solution"]
     | _ => app "err" [.atom "bad-request"]
 
